@@ -370,6 +370,13 @@ func vfOracleC02(env *vfEnv, pre, post *vfSnap, op int, cmd *protocol.LockComman
 			vfAssert(own.lockId == o.lockId, "C02: unlock-first reply does not carry the released hold's LockId")
 			pj := post.holderByPtr(o.l)
 			vfAssert(pj < 0 || post.holders[pj].depth == o.depth-1, "C02: unlock-first did not release from the oldest hold")
+			// which levels: the REQUEST says so (Rcount > 0: one level, Rcount = 0: all of them)
+			if o.depth > 1 && vfUnlockRcount == 0 {
+				vfAssert(pj < 0, "C02: an unlock-first request with Rcount=0 did not release every level of the oldest hold")
+			}
+			if o.depth > 1 && vfUnlockRcount > 0 && !vfUnlockPrio {
+				vfAssert(pj >= 0, "C02: an unlock-first request with Rcount>0 released more than one level of the oldest hold")
+			}
 			for i, x := range pre.holders {
 				if i == 0 {
 					continue
